@@ -11,7 +11,11 @@ RULE = ("binary trees on 4..12 tips (thorough: up to 24), unrooted (root of degr
         "as cmd/nni.go does (Apply, CheckTreePostOrder, Newick, Undo, CheckTreePostOrder) and the rearranged tree of every "
         "proposal is dumped; sequence cases give 2 or 3 trees (different sizes in both orders, rooted/unrooted mixes, the same tree "
         "twice) to ONE NNIRearranger value one after the other, as the loop over a multi-tree input of cmd/nni.go does, every tree "
-        "judged on its own; non-trivial = at least one proposal; distinct = distinct case text")
+        "judged on its own; operation cases run Apply/Undo sequences (A U A U, A A U, A U U, U A U, A U A A U U, ...) on every "
+        "proposal object inside the callback with a dump after every operation; kept-object cases only collect the proposal "
+        "objects in the callback and use them after Rearrange has returned, in enumeration order, in a shuffled order, and in "
+        "order then shuffled again (every object used twice), with A U or A U A U; non-trivial = at least one proposal; "
+        "distinct = distinct case text")
 TRUSTED = ["tree built through NewNode/NewEdge + verif hooks (exact neighbour order); dump through Neigh()/Edges()/Left()/Right() "
            "with a pointer-level audit (symmetric adjacency, branches oriented away from the root)"]
 ASSUMPTIONS = ["the Newick text of the rearranged trees is compared with the writer model of Model/Newick.v (property C01)"]
@@ -146,4 +150,28 @@ def gen(rng, tier):
         else:
             ts = [rnd_tree() for _ in range(rng.choice([2, 3]))]
         add_seq(ts, "sequence")
+    # operations on the proposal objects (the applied flag), inside the callback and on kept objects
+    OPS = ["AUAU", "AAU", "AUU", "UAU", "AUAAUU", "AAUAU", "UUAAUU", "AU"]
+    K = 64
+    def add_ops(t, ops, collect, src):
+        d = {"tree": T(t)}
+        if ops is not None:
+            d["ops"] = [Sym(x) for x in ops]
+        if collect is not None:
+            d["collect"] = list(collect)
+        m = meta_of(t, src)
+        m["ops"] = ops or ""
+        m["collect"] = "" if collect is None else ("twice" if len(collect) > K else ("order" if list(collect) == sorted(collect) else "shuffled"))
+        out.append({"sx": sx(d), "meta": m})
+    nops = {"quick": 14, "thorough": 300, "search": 40}[tier]
+    for i in range(nops):
+        t = rnd_tree(rng.randint(4, 11))
+        for ops in rng.sample(OPS[:-1], 3):
+            add_ops(t, ops, None, "ops")
+        ident = list(range(K))
+        sh = ident[:]
+        rng.shuffle(sh)
+        add_ops(t, None, ident, "kept")
+        add_ops(t, None, sh, "kept")
+        add_ops(t, rng.choice(["AUAU", "AAUU", "UAUAU"]), ident + sh, "kept")
     return out
